@@ -431,6 +431,12 @@ class Engine:
         if addr[0] == "B":
             return Blob(addr[1])
         if addr[0] == "S":
+            if len(addr) == 3 and addr[2][0] == "i":
+                from . import stubs as _S
+                arr, n = _S.table_u8(self, addr[1])
+                iv = addr[2][1]
+                ie = iv.e if iv.width == 64 else z3.ZeroExt(64 - iv.width, iv.e)
+                return Int(z3.Select(arr, ie), "u8")
             return self.static_value(addr[1])
         if addr[0] == "V":
             v = addr[1]
@@ -446,6 +452,8 @@ class Engine:
     def project(self, v, p):
         if isinstance(v, Blob):
             return v
+        if isinstance(v, Opaque) and v.ty == "symslice" and p[0] == "f":
+            return Int(z3.Select(v.attrs["arr"], z3.BitVecVal(p[1], 64)), "u8")
         if p[0] == "f":
             if isinstance(v, Agg):
                 if p[1] >= len(v.fields):
@@ -573,6 +581,9 @@ class Engine:
             rhs = mirparse.PROMOTED.get("%s::promoted[%s]" % (m.group(1), m.group(2)))
             if rhs is not None:
                 inner = rhs[6:] if rhs.startswith("const ") else rhs
+                mm = re.fullmatch(r"std::ops::RangeInclusive::<(\w+)>::new\(const (\S+), const (\S+)\)", inner)
+                if mm:
+                    return Ref(("V", Agg("struct", "RangeInclusive", [self.const(mm.group(2)), self.const(mm.group(3))])))
                 return Ref(("V", self.const(inner)))
         m = re.fullmatch(r'b?"(.*)"', t, flags=re.S)
         if m:
@@ -748,6 +759,14 @@ class Engine:
                 if isinstance(v, F64):
                     return F64(z3.fpNeg(v.e))
                 return Int(-v.e, v.ty)
+            if rv[1] == "PtrMetadata":
+                w = v
+                while isinstance(w, Ref) and w.addr[0] == "V":
+                    w = w.addr[1]
+                if isinstance(w, Opaque) and w.ty == "symslice":
+                    return Int(w.attrs["len"], "usize")
+                if isinstance(w, Opaque) and w.ty == "strlit":
+                    return Int(z3.BitVecVal(len(w.attrs["lit"]), 64), "usize")
             raise Unsupported("unop " + rv[1])
         if k == "cast":
             return self.cast(self.operand(st, frame, rv[1]), rv[2], rv[3])
@@ -767,6 +786,9 @@ class Engine:
             return Agg("tuple", None, [self.operand(st, frame, x) for x in rv[1]])
         if k == "array":
             return Agg("array", None, [self.operand(st, frame, x) for x in rv[1]])
+        if k == "repeat":
+            v = self.operand(st, frame, rv[1])
+            return Agg("array", None, [clone(v) for _ in range(min(rv[2], 64))])
         if k == "struct":
             return Agg("struct", strip_generics(rv[1]).split("::")[-1], [self.operand(st, frame, x) for _, x in rv[2]])
         if k == "adt":
@@ -777,6 +799,8 @@ class Engine:
             v = self.load(st, self.resolve(st, frame, rv[1]))
             if isinstance(v, Agg):
                 return Int(z3.BitVecVal(len(v.fields), 64), "usize")
+            if isinstance(v, Opaque) and v.ty == "static":
+                return Int(z3.BitVecVal(v.attrs["size"], 64), "usize")
             raise Unsupported("Len of %r" % (v,))
         raise Unsupported("rvalue %r" % (rv,))
 
@@ -1099,6 +1123,9 @@ def strip_generics(p):
         c = p[i]
         if c == "<":
             depth += 1
+        elif c == ">" and i > 0 and p[i - 1] == "-":
+            if depth == 0:
+                out.append(c)
         elif c == ">":
             depth -= 1
         elif depth == 0:
